@@ -7,6 +7,7 @@ time-out has elapsed.  An expired connection is answered 408 and closed.
 Times are in milliseconds since the start of the request (= parser construction / last reset).
 -/
 import PistacheModel.Model.Basic
+import PistacheModel.Generated.HeaderTables
 
 namespace Pistache.Timeouts
 
@@ -16,7 +17,7 @@ inductive Phase | head | body | complete
 structure TCfg where
   hdr : Nat
   body : Nat
-  period : Nat := 500
+  period : Nat := Gen.timerPeriodMs     -- regenerated from src/server/endpoint.cc on every run
   deriving DecidableEq, Repr
 
 /-- the test of `checkIdlePeers` for one connection -/
